@@ -359,3 +359,38 @@ func H06c_rejected() {
 	vrtAssert("C06.history_count", len(subs) == 0)
 	vrtReach("C06.rejected")
 }
+
+// H06c_remove_all: Unsubscribe with a nil subscriber removes ALL subscribers of
+// a filter (the form the client side uses); the node survives because a deeper
+// filter is still subscribed; a subscription made afterwards has its own QoS.
+func H06c_remove_all() {
+	MaxQosAllowed = 2
+	mt := NewMemProvider()
+	s1, s2, s3, deep := new(int), new(int), new(int), new(int)
+	q1, q2, q3 := vrtByte("q1"), vrtByte("q2"), vrtByte("q3")
+	vrtAssume(vrtAnd(q1 <= 2, vrtAnd(q2 <= 2, q3 <= 2)))
+	F := []byte("a")
+	withDeeper := vrtBool("deeper_filter_keeps_the_node")
+	if withDeeper {
+		mt.Subscribe([]byte("a/b"), 1, deep)
+	}
+	mt.Subscribe(F, q1, s1)
+	mt.Subscribe(F, q2, s2)
+	vrtAssert("C06.remove_all_ok", mt.Unsubscribe(F, nil) == nil)
+	subs, _, err := vrtSubscribers(mt, F, 2)
+	vrtAssert("C06.history_count", err == nil && len(subs) == 0)
+	mt.Subscribe(F, q3, s3)
+	subs, qoss, err := vrtSubscribers(mt, F, 2)
+	vrtAssert("C06.history_count", err == nil && len(subs) == 1)
+	if len(subs) == 1 {
+		vrtAssert("C06.history_qos", vrtAnd(subs[0] == interface{}(s3), qoss[0] == q3))
+	}
+	if withDeeper {
+		subs, qoss, err = vrtSubscribers(mt, []byte("a/b"), 2)
+		vrtAssert("C06.history_count", err == nil && len(subs) == 1)
+		if len(subs) == 1 {
+			vrtAssert("C06.history_qos", vrtAnd(subs[0] == interface{}(deep), qoss[0] == 1))
+		}
+	}
+	vrtReach("C06.remove_all")
+}
